@@ -133,13 +133,14 @@ Definition derive (nm : names) (cs : cstate) (o : op) (bufs : list (Z * Z * Z)) 
   | OWrite r s => TOk (CWrite r s, nm)
   | OPair r r2 => TOk (CPair r r2, nm)
   | OUnpair r => TOk (CUnpair r, nm)
+  | OEdit r e => TOk (CEdit r e, nm)
   end.
 
 Definition is_nil {A} (l : list A) : bool := match l with [] => true | _ => false end.
 
 (** operations through which Go's append may move a buffer to a new array *)
 Definition may_move (o : op) : bool :=
-  match o with OWrite _ _ | OJoin _ _ _ | OSub _ _ _ true => true | _ => false end.
+  match o with OWrite _ _ | OJoin _ _ _ | OSub _ _ _ true | OEdit _ (EWriteQ _) | OEdit _ EGrow => true | _ => false end.
 
 (** bind the real identity [i] (-1: none) to the model buffer [b] *)
 Definition bind (mv : bool) (i : Z) (b : nat) (nm : names) : option names :=
